@@ -308,13 +308,14 @@ def harnesses(tier):
     return out
 
 
-BUDGET = {"quick": 10000, "thorough": 250000}
+BUDGET = {"quick": 10000, "thorough": 60000}
+GLOBAL = {"quick": 400000, "thorough": 6000000}
 
 
 def leg_schedules(part, tier, shard, nshards):
     # runs in this process: the explorer itself fans out over all cores
     hs = harnesses(tier)
-    total = explore.explore_adaptive(hs, LEVELS, BUDGET[tier])
+    total = explore.explore_adaptive(hs, LEVELS, BUDGET[tier], global_budget=GLOBAL[tier])
     part.merge(total)
     part.counters["harnesses"] = len(hs)
 
@@ -331,7 +332,7 @@ META = {
     "within the tier's budget; an execution is non-trivial when it has a choice point; "
     "distinct by (harness, choice sequence)",
     "bounds": {"quick": {"levels": "iterative (K,T) ladder (0,0) (1,0) (1,1) (2,1) (3,1) (4,1) (5,2) per harness while the predicted next level is <= 10000 executions; deepest completed level per harness in notes.completed_bounds", "granularity": "source line of threadpool.py"},
-               "thorough": {"levels": "same ladder, predicted <= 250000 executions", "granularity": "source line; opcode for set_callback/execute/__notify/EventData in four extra harnesses"}},
+               "thorough": {"levels": "same ladder, predicted <= 60000 executions per harness, 6 million in total", "granularity": "source line; opcode for set_callback/execute/__notify/EventData in four extra harnesses"}},
     "assumptions": [
         "thread switches happen only at synchronisation operations and at line (opcode) boundaries of jsonrpclib/threadpool.py",
         "threading.Event/Lock/Condition and queue are the shim implementations (stdlib queue.py source over shim threading)",
